@@ -153,6 +153,43 @@ def c13_hash_pin(r):
         shutil.rmtree(d, ignore_errors=True)
 
 
+NASTY_STR = ['\r', 'a\r\nb', '\x00', '\x85', '\u2028', '\udcc3\udca9', '\ud800', '\U0001f600', 'é']
+
+
+def c01_roundtrip(r):
+    import io
+    import diskcache
+    d = tempfile.mkdtemp()
+    try:
+        mfs = max(0, int(lit(r.get('min_file_size', '0'))))
+        c = diskcache.Cache(d, disk=disk_class(r['disk']), disk_min_file_size=mfs,
+                            disk_pickle_protocol=int(lit(r.get('protocol', '5'))))
+        v = lit(r['value'])
+        cands = [v]
+        if isinstance(v, str):
+            # the solver's string is arbitrary: also try boundary strings of the same length class
+            for s in NASTY_STR:
+                cands.append(s * max(1, (len(v) // max(len(s), 1)) + 1))
+        for cand in cands:
+            try:
+                if r.get('stream'):
+                    c.set('k', io.BytesIO(cand), read=True)
+                else:
+                    c.set('k', cand)
+            except Exception as e:
+                continue
+            if r.get('read'):
+                with c.get('k', read=True) as f:
+                    back = f.read()
+            else:
+                back = c.get('k')
+            if not same(back, cand):
+                return {'reproduced': True, 'input': repr(cand)[:200], 'observed': repr(back)[:200]}
+        return {'reproduced': False, 'observed': 'all candidates round-trip or are rejected'}
+    finally:
+        shutil.rmtree(d, ignore_errors=True)
+
+
 def main():
     r = json.load(sys.stdin)
     try:
